@@ -38,7 +38,10 @@ RULE = ("A: every index of every (n,k), n <= Nexh, k <= min(n,5) (plus k = n for
         "only; D: the production call site observed through recording input arrays and a recording generator: n_thetas 3..16 with budgets "
         "1, C/2, C-1, C, C+1, 2C, 5000, n_thetas 32/33 around the default budget 5000, n_thetas 60..3000 with budgets 50..5000 (sub-sampling), "
         "a third of them with a generator whose with-replacement draws are constant; plus uninstrumented unit-weight runs; plus one scorer object "
-        "reused over 2-4 rounds with different n_thetas (growing and shrinking; budget covering all rounds / some / none), triples observed per kernel invocation. Non-trivial: k >= 2 and C(n,k) >= 3.")
+        "reused over 2-4 rounds with different n_thetas (growing and shrinking; budget covering all rounds / some / none), triples observed per kernel invocation; "
+        "hardening classes: every argument a temporary (identity-keyed memo), one scorer + another generator, instalments, n_thetas 127..257 and budgets "
+        "4999/5001/C/C+1/20000 around the default 5000 through kernel, both wrappers and the scorer. Oracles fire only for k <= 4 and for the stated clauses "
+        "(in range, distinct, all when covered); k > 4, invalid arguments, the number of sub-sampled triples, unranked index range and rng.choice population are ties. Non-trivial: k >= 2 and C(n,k) >= 3.")
 
 
 def rank(c):
@@ -87,23 +90,40 @@ def call(fn, index, n, k):
         return "err:" + type(e).__name__
 
 
+KMAX = 4     # the property's quantifier: all n >= 0, all 0 <= k <= 4 (larger k is compared with the model only)
+
+
+class _Quantified:
+    """`res.fail` for inputs inside the property's quantifier; for k > 4 only a counter (the tie with the model still compares them)"""
+
+    def __init__(self, res, k):
+        self.res, self.inside = res, k <= KMAX
+
+    def fail(self, *a, **kw):
+        if self.inside:
+            self.res.fail(*a, **kw)
+        else:
+            self.res.count("outside_quantifier.k>4.oracle_would_fire(tie only)")
+
+
 def oracle_point(res, fn, index, n, k, as_numpy, want_successor=True):
     """evaluate the oracles at one index (and its successor); returns the implementation's output"""
     arg = np.int64(index) if as_numpy else index
     case = {"kind": "point", "index": int(index), "n": n, "k": k, "numpy_index": bool(as_numpy)}
     out = call(fn, arg, n, k)
     res.evaluations += 1
+    q = _Quantified(res, k)
     if isinstance(out, str):
-        res.fail("unranking raises on a valid index", case, out, "a k-tuple", signature="C15:raises")
+        q.fail("unranking raises on a valid index", case, out, "a k-tuple", signature="C15:raises")
         return out
     bad = check_valid(out, n, k)
     if bad:
-        res.fail("output is not a strictly descending k-tuple below n", case, {"out": list(out), "why": bad},
+        q.fail("output is not a strictly descending k-tuple below n", case, {"out": list(out), "why": bad},
                  "length k, strictly descending, entries in [0,n)", signature="C15:valid")
         return out
     r = rank(out)
     if r != index:
-        res.fail("rank(unrank(index)) != index (a combination is repeated or skipped)", case,
+        q.fail("rank(unrank(index)) != index (a combination is repeated or skipped)", case,
                  {"out": list(out), "rank": r}, {"rank": int(index)}, signature="C15:rank")
         return out
     if want_successor and index + 1 < math.comb(n, k):
@@ -112,7 +132,7 @@ def oracle_point(res, fn, index, n, k, as_numpy, want_successor=True):
         res.evaluations += 1
         want = successor(out, n)
         if out2 != want:
-            res.fail("out(index+1) is not the lexicographic successor of out(index)", case,
+            q.fail("out(index+1) is not the lexicographic successor of out(index)", case,
                      {"out": list(out), "next": list(out2) if not isinstance(out2, str) else out2},
                      {"next": list(want) if want else None}, signature="C15:successor")
     return out
@@ -121,6 +141,7 @@ def oracle_point(res, fn, index, n, k, as_numpy, want_successor=True):
 def exhaustive(res, fn, n, k, lines, expect, meta):
     total = math.comb(n, k)
     case = {"kind": "exhaustive", "n": n, "k": k}
+    q = _Quantified(res, k)
     outs = []
     for idx in range(total):
         o = call(fn, idx, n, k)
@@ -133,14 +154,14 @@ def exhaustive(res, fn, n, k, lines, expect, meta):
     # reference enumeration: descending tuples in ascending lexicographic order
     if outs != ref:
         first = next((i for i, (a, b) in enumerate(zip(outs, ref)) if a != b), None)
-        res.fail("enumeration over all indices is not every k-subset once in ascending order", dict(case, first_bad_index=first),
+        q.fail("enumeration over all indices is not every k-subset once in ascending order", dict(case, first_bad_index=first),
                  {"out": list(outs[first]) if first is not None and not isinstance(outs[first], str) else (outs[first] if first is not None else None),
                   "distinct": len(set(outs)), "total": total},
                  {"out": list(ref[first]) if first is not None else None, "distinct": total}, signature="C15:enumeration")
         return
     for idx, o in enumerate(outs):
         if rank(o) != idx:
-            res.fail("rank(unrank(index)) != index (a combination is repeated or skipped)",
+            q.fail("rank(unrank(index)) != index (a combination is repeated or skipped)",
                      {"kind": "point", "index": idx, "n": n, "k": k, "numpy_index": False},
                      {"out": list(o), "rank": rank(o)}, {"rank": idx}, signature="C15:rank")
             break
@@ -267,19 +288,19 @@ def callsite_case(res, gd, n_thetas, max_combos, seed, adversarial=False, tie=No
     want_n = min(total, max_combos)
 
     # ---- what was unranked (when the code goes through the repo's unranking function at all) ------------------
+    # HOW the triples are obtained (which (n,k) is unranked, index range, population handed to rng.choice) is not stated by the property:
+    # it is compared with the call-site model (a difference is a broken tie); only the triples really used are an oracle.
     for (index, n, k, out) in calls:
         if n != n_thetas or k != 3:
-            res.fail("call site unranks with other (n,k) than (n_thetas,3)", case, {"n": n, "k": k}, {"n": n_thetas, "k": 3}, signature="C15:callsite-args")
-            return
+            res.disagree("C15:callsite-args", case, {"n": n, "k": k}, {"n": n_thetas, "k": 3})
+            break
         if not (0 <= index < total):
-            res.fail("call site unranks an index outside [0, C(n,3)) (the function then repeats the last triple)", case,
-                     {"index": index, "C(n,3)": total, "out": list(out)}, "0 <= index < C(n,3)", signature="C15:callsite-index")
-            return
+            res.disagree("C15:callsite-index", case, {"unranked_index": index}, {"valid_indices": "[0, %d)" % total})
+            break
     for ch in rng.choices:
-        if ch["a"] is not None and int(ch["a"]) > total:
-            res.fail("rng.choice draws from a population larger than the C(n,3) valid indices", case,
-                     {"population": int(ch["a"]), "size": ch["size"]}, {"population": total}, signature="C15:callsite-population")
-            return
+        if ch["a"] is not None and int(ch["a"]) != total:
+            res.disagree("C15:callsite-population", case, {"population": int(ch["a"]), "size": ch["size"]}, {"population": total})
+            break
 
     # ---- the triples: read off the distance matrix keys, cross-checked with the keys of predictions / variances -----
     triples = None
@@ -289,25 +310,16 @@ def callsite_case(res, gd, n_thetas, max_combos, seed, adversarial=False, tie=No
         (a1, b1), (a2, b2), (a3, b3) = dkeys
         # (idx1,idx2), (idx2,idx3), (idx1,idx3)
         if not (np.array_equal(a1, a3) and np.array_equal(b1, a2) and np.array_equal(b2, b3)):
-            res.fail("distance matrix is not read at the three pairs of one triple", case,
-                     {"keys": [[x.tolist()[:5] for x in kk] for kk in dkeys]}, "(i,j),(j,l),(i,l)", signature="C15:callsite-pairs")
+            res.count("callsite.unobserved(distance gathers not recognised)")
             return
         cols = (a1, b1, b2)
         triples = [(int(i), int(j), int(l)) for i, j, l in zip(*cols)]
         how = "distance-matrix"
-        # predictions / variances / mask must be gathered with the same three index arrays
+        # predictions / variances / mask gathered with other index arrays: an access pattern this harness does not recognise (counter only)
         for name, lg in (("predictions", log_p), ("variances", log_v)):
             seen = [k[0] for k in lg if len(k) == 1]
-            for arr in seen:
-                if not any(np.array_equal(arr, c_) for c_ in cols):
-                    res.fail("%s are gathered with an index array that is none of the three columns of the triples used for the distances" % name,
-                             case, {"index_array": arr.tolist()[:8], "columns": [c_.tolist()[:8] for c_ in cols]}, "idx1, idx2 or idx3",
-                             signature="C15:callsite-consistency")
-                    return
-            if seen and not all(any(np.array_equal(arr, c_) for arr in seen) for c_ in cols):
-                res.fail("%s are not gathered at all three members of each triple" % name, case,
-                         {"n_distinct_index_arrays": len(set(a.tobytes() for a in seen))}, "idx1, idx2 and idx3", signature="C15:callsite-consistency")
-                return
+            if any(not any(np.array_equal(arr, c_) for c_ in cols) for arr in seen):
+                res.count("callsite.unrecognised_gathers_on_" + name)
     else:
         uniq = []
         for k in log_p + log_v:
@@ -328,9 +340,9 @@ def callsite_case(res, gd, n_thetas, max_combos, seed, adversarial=False, tie=No
     if how != "distance-matrix":
         res.count("callsite.observed-via-" + how)
     obs = {"n_triples": len(triples), "distinct": len(set(triples)), "first": [list(t) for t in triples[:5]], "observed_via": how}
-    if len(triples) != want_n:
-        res.fail("number of triples used differs from min(C(n,3), max_combos)", case, obs, {"n_triples": want_n}, signature="C15:callsite-count")
-        return
+    if len(triples) != want_n and total > max_combos:
+        # sub-sampling regime: HOW MANY triples are drawn is not stated by the property (only distinct / in range): tie with the model
+        res.disagree("C15:callsite-count", case, {"n_triples": len(triples)}, {"n_triples": want_n})
     for t in triples:
         if check_valid(t, n_thetas, 3):
             res.fail("triple used for scoring is not i>j>l within range", case, dict(obs, bad=list(t)), "n_thetas > i > j > l >= 0",
@@ -474,10 +486,6 @@ def scorer_reuse_case(res, gd, ns, max_triples, max_chunk, seed):
             for inv, (lp, lv, ld) in enumerate(per_call):
                 how, triples = triples_of_kernel_call(ld, lp, lv)
                 if triples is None:
-                    if how in ("pairs", "inconsistent"):
-                        res.fail("the kernel's arrays are not gathered at one consistent set of triples", case, {"round": rnd, "why": how},
-                                 "(i,j),(j,l),(i,l) and idx1/idx2/idx3", signature="C15:reuse-consistency")
-                        return
                     res.count("reuse.unobserved")
                     continue
                 obs = {"round": rnd, "n_thetas": n, "kernel_call": inv, "n_triples": len(triples), "distinct": len(set(triples)),
@@ -491,17 +499,12 @@ def scorer_reuse_case(res, gd, ns, max_triples, max_chunk, seed):
                     res.fail("triples used for scoring are not pairwise distinct (scorer object reused)", case, obs, "pairwise distinct",
                              signature="C15:reuse-distinct")
                     return
-                if len(triples) != want_n:
-                    res.fail("number of triples used differs from min(C(n,3), max_triples) (scorer object reused with another number of posterior samples)",
-                             case, obs, {"n_triples": want_n}, signature="C15:reuse-count")
-                    return
+                if len(triples) != want_n and total > max_triples:
+                    res.disagree("C15:reuse-count", case, {"round": rnd, "n_triples": len(triples)}, {"n_triples": want_n})     # sub-sampling: not stated
                 if total <= max_triples and len(set(triples)) != total:
                     res.fail("budget covers all triples but not all triples are used (scorer object reused)", case, obs, "all C(n,3) triples",
                              signature="C15:reuse-all")
                     return
-            if len(out) != len(plates):
-                res.fail("scorer does not score every plate", case, {"round": rnd}, "one score per plate", signature="C15:reuse-raises")
-                return
             if rnd >= 1:
                 res.count("reuse.round_after_%s_n.%s" % ("smaller" if ns[rnd - 1] < n else "larger" if ns[rnd - 1] > n else "equal",
                                                         "exhaustive" if total <= max_triples else "subsampled"))
@@ -509,6 +512,163 @@ def scorer_reuse_case(res, gd, ns, max_triples, max_chunk, seed):
                 res.traces_validated += 1
     finally:
         gd.dbal_fast_gauss_scoring_vectorized = kernel
+
+
+class observed_kernel:
+    """context manager: wraps the three arrays every kernel invocation receives in recorders (all other arguments, also ones this
+    harness does not know such as precomputed triples, pass through untouched); yields the list of per-invocation gather logs"""
+
+    def __init__(self, gd):
+        self.gd, self.per_call = gd, []
+
+    def __enter__(self):
+        self.kernel = kernel = self.gd.dbal_fast_gauss_scoring_vectorized
+        per_call = self.per_call
+
+        def wrapped(*a, **k):
+            logs = ([], [], [])
+            a = list(a)
+            for pos, (name, lg) in enumerate(zip(("predictions", "variances", "distance_matrix"), logs)):
+                if name in k:
+                    k[name] = RecordingArray(np.asarray(k[name]), lg)
+                elif pos < len(a):
+                    a[pos] = RecordingArray(np.asarray(a[pos]), lg)
+            out = kernel(*a, **k)
+            per_call.append(logs)
+            return out
+
+        self.gd.dbal_fast_gauss_scoring_vectorized = wrapped
+        return per_call
+
+    def __exit__(self, *exc):
+        self.gd.dbal_fast_gauss_scoring_vectorized = self.kernel
+        return False
+
+
+def check_used(res, case, logs, n, budget, cls, extra=None):
+    """the property's clauses on the triples ONE kernel invocation gathered: in range i>j>l, pairwise distinct, all C(n,3) when the budget
+    covers them (concrete oracles); their number in the sub-sampling regime is compared as a tie.  Returns the triples or None."""
+    lp, lv, ld = logs
+    how, triples = triples_of_kernel_call(ld, lp, lv)
+    if triples is None:
+        res.count("class.%s.unobserved" % cls)
+        return None
+    total = math.comb(n, 3)
+    obs = dict({"n_thetas": n, "budget": budget, "n_triples": len(triples), "distinct": len(set(triples)), "first": [list(t) for t in triples[:5]],
+                "observed_via": how}, **(extra or {}))
+    bad_t = next((t for t in triples if check_valid(t, n, 3)), None)
+    if bad_t is not None:
+        res.fail("triple used for scoring is not i>j>l within range [%s]" % cls, case, dict(obs, bad=list(bad_t)), "n_thetas > i > j > l >= 0", signature="C15:%s-range" % cls)
+        return None
+    if len(set(triples)) != len(triples):
+        res.fail("triples used for scoring are not pairwise distinct [%s]" % cls, case, obs, "pairwise distinct", signature="C15:%s-distinct" % cls)
+        return None
+    if total <= budget and len(set(triples)) != total:
+        res.fail("budget covers all triples but not all triples are used [%s]" % cls, case, obs, "all C(n,3) = %d triples" % total, signature="C15:%s-all" % cls)
+        return None
+    if total > budget and len(triples) != budget:
+        res.disagree("C15:%s-count" % cls, case, {"n_triples": len(triples)}, {"n_triples": budget})
+    return triples
+
+
+def _tiny_inputs(g, n, n_plates=1):
+    sizes = [int(x) for x in g.integers(1, 3, size=n_plates)]
+    means = [g.normal(size=(n, L)) for L in sizes]
+    hv = g.uniform(0.5, 2.0, size=(n_plates, n))
+    variances = [hv[k][:, None] * np.ones((n, L)) for k, L in enumerate(sizes)]
+    d = g.uniform(0.1, 1.0, size=(n, n))
+    d = (d + d.T) / 2
+    np.fill_diagonal(d, 0.0)
+    return means, variances, hv, d
+
+
+def entry_call(gd, entry, n, budget, rng, g, scorer=None):
+    """one call of an entry point on fresh tiny inputs"""
+    means, variances, hv, d = _tiny_inputs(g, n, int(g.integers(1, 3)))
+    if entry == "kernel":
+        W = max(m.shape[1] for m in means)
+        pm = np.zeros((len(means), n, W))
+        pv = np.full((len(means), n, W), np.nan)
+        for i, (m, v) in enumerate(zip(means, variances)):
+            pm[i, :, :m.shape[1]] = m
+            pv[i, :, :v.shape[1]] = v
+        return gd.dbal_fast_gauss_scoring_vectorized(pm, pv, d, rng, max_combos=budget)
+    if entry == "heteroscedastic":
+        return gd.dbal_fast_gaussian_scoring_heteroscedastic(means, variances, d, rng, max_combos=budget)
+    if entry == "homoscedastic":
+        return gd.dbal_fast_gaussian_scoring_homoscedastic(means, hv, d, rng, max_combos=budget)
+    sc = scorer if scorer is not None else gd.GaussianDBALScorer(max_chunk=50, max_triples=budget)
+    return sc.score(plates={i: _StubPlate(m, v) for i, (m, v) in enumerate(zip(means, variances))}, distance_matrix=_StubDM(d),
+                    samples=_StubThetas(n), rng=rng, progress_bar=False)
+
+
+def classes_case(res, gd, cls, params, seed):
+    """hardening classes 10-13 on the call-site stream; every failing case is replayable from (cls, params, seed)"""
+    case = {"kind": "class", "class": cls, "params": params, "seed": seed}
+    g = np.random.default_rng(seed)
+    try:
+        with observed_kernel(gd) as pc:
+            if cls == "identity-temporaries":
+                # every argument (arrays, generator, scorer) is a temporary; only the observation is kept.  CPython hands the freed
+                # addresses out again, so anything memoised by id() of an argument returns the triples of ANOTHER n_thetas.
+                for rnd, n in enumerate(params["ns"]):
+                    del pc[:]
+                    entry_call(gd, params["entries"][rnd % len(params["entries"])], n, params["budget"], RecGen(int(g.integers(2 ** 31))), g)
+                    for logs in pc:
+                        if check_used(res, case, logs, n, params["budget"], cls, {"round": rnd, "previous_n_thetas": params["ns"][:rnd]}) is None:
+                            return
+                    res.count("class.identity-temporaries")
+            elif cls == "reuse-other-seed":
+                n, budget = params["n"], params["budget"]
+                means, variances, hv, d = _tiny_inputs(g, n, 3)
+                plates = {i: _StubPlate(m, v) for i, (m, v) in enumerate(zip(means, variances))}
+                sc = gd.GaussianDBALScorer(max_chunk=params["max_chunk"], max_triples=budget)
+                s1, s2 = int(g.integers(2 ** 31)), int(g.integers(2 ** 31))
+                sc.score(plates=plates, distance_matrix=_StubDM(d), samples=_StubThetas(n), rng=RecGen(s1), progress_bar=False)
+                del pc[:]
+                rb = RecGen(s2)
+                sc.score(plates=plates, distance_matrix=_StubDM(d), samples=_StubThetas(n), rng=rb, progress_bar=False)
+                second = []
+                for logs in pc:
+                    t = check_used(res, case, logs, n, budget, cls, {"call": "second, other generator"})
+                    if t is None:
+                        return
+                    second.append(t)
+                del pc[:]
+                rf = RecGen(s2)
+                gd.GaussianDBALScorer(max_chunk=params["max_chunk"], max_triples=budget).score(
+                    plates=plates, distance_matrix=_StubDM(d), samples=_StubThetas(n), rng=rf, progress_bar=False)
+                fresh = [triples_of_kernel_call(ld, lp, lv)[1] for (lp, lv, ld) in pc]
+                if [sorted(t) for t in second] != [sorted(t or []) for t in fresh] or rb.bit_generator.state != rf.bit_generator.state:
+                    # which triples a given seed selects / how much the generator advances is C18's subject: tie only
+                    res.disagree("C15:reuse-other-seed-trace", case, {"second_call_first_triples": [t[:3] for t in second][:2]},
+                                 {"fresh_scorer_first_triples": [(t or [])[:3] for t in fresh][:2]})
+                res.count("class.reuse-other-seed")
+            elif cls == "instalments":
+                n, budget = params["n"], params["budget"]
+                sc = gd.GaussianDBALScorer(max_chunk=params["max_chunk"], max_triples=budget)
+                rng = RecGen(int(g.integers(2 ** 31)))
+                for part in range(params["parts"]):
+                    del pc[:]
+                    entry_call(gd, "scorer", n, budget, rng, g, scorer=sc)
+                    for logs in pc:
+                        if check_used(res, case, logs, n, budget, cls, {"instalment": part}) is None:
+                            return
+                res.count("class.instalments")
+            elif cls in ("width-boundaries", "budget-vs-default"):
+                n, budget = params["n"], params["budget"]
+                for entry in ("kernel", "heteroscedastic", "homoscedastic", "scorer"):
+                    del pc[:]
+                    entry_call(gd, entry, n, budget, RecGen(int(g.integers(2 ** 31))), g)
+                    for logs in pc:
+                        if check_used(res, case, logs, n, budget, cls, {"entry": entry}) is None:
+                            return
+                    res.count("class.%s" % cls)
+    except Exception as e:  # noqa
+        res.fail("scoring raises on valid input [%s]" % cls, case, "%s: %s" % (type(e).__name__, str(e)[:200]), "scores", signature="C15:%s-raises" % cls)
+        return
+    res.evaluations += 1
+    res.nontrivial.add(("class", cls, repr(sorted(params.items()))))
 
 
 def blackbox_case(res, gd, n_thetas, max_combos, seed):
@@ -527,7 +687,9 @@ def blackbox_case(res, gd, n_thetas, max_combos, seed):
     res.evaluations += 1
     K = min(math.comb(n_thetas, 3), max_combos)
     want = math.log(3.0 * K) - 0.5 * E * math.log(3.0)
-    if not abs(float(sc[0]) - want) <= 1e-9 * max(1.0, abs(want)):
+    if not abs(float(sc[0]) - want) <= 1e-9 * max(1.0, abs(want)) and math.comb(n_thetas, 3) > max_combos:
+        res.disagree("C15:callsite-blackbox", case, {"score": float(sc[0])}, {"score": want, "K": K})
+    elif not abs(float(sc[0]) - want) <= 1e-9 * max(1.0, abs(want)):
         res.fail("score with unit distances/variances is not log(3 K) - E/2 log 3: not K triples of three different samples are used", case,
                  {"score": float(sc[0]), "implied_K_times_3": math.exp(float(sc[0]) + 0.5 * E * math.log(3.0))}, {"score": want, "K": K},
                  signature="C15:callsite-blackbox")
@@ -649,6 +811,22 @@ def run(ctx, res):
         scorer_reuse_case(res, gd, ns, mt, mc, crng.randrange(2 ** 31))
         if len(res.oracle_failures) >= 20:
             break
+    # hardening classes 10-13 on the call-site stream
+    cl = [("identity-temporaries", {"ns": [7, 6, 5, 7, 5, 6, 5, 8, 5], "budget": 10, "entries": ["kernel"]}),
+          ("identity-temporaries", {"ns": [5, 9, 4, 9, 5, 4, 6], "budget": 5000, "entries": ["kernel", "scorer", "heteroscedastic", "homoscedastic"]}),
+          ("identity-temporaries", {"ns": [6, 5, 6, 4, 5, 4], "budget": 4, "entries": ["scorer"]}),
+          ("reuse-other-seed", {"n": 6, "budget": 20, "max_chunk": 50}), ("reuse-other-seed", {"n": 8, "budget": 12, "max_chunk": 1}),
+          ("reuse-other-seed", {"n": 5, "budget": 5000, "max_chunk": 2}),
+          ("instalments", {"n": 6, "budget": 20, "max_chunk": 50, "parts": 4}), ("instalments", {"n": 7, "budget": 9, "max_chunk": 1, "parts": 3}),
+          ("instalments", {"n": 5, "budget": 5000, "max_chunk": 2, "parts": 3})]
+    for nb in (127, 128, 129, 255, 256, 257):
+        cl.append(("width-boundaries", {"n": nb, "budget": crng.choice([127, 128, 255, 256, 257, 300])}))
+    for nb, bud in ((34, 4999), (34, 5001), (34, 5984), (34, 20000), (36, 5001), (36, 7140), (36, 7141), (40, 20000), (36, 6000)):
+        cl.append(("budget-vs-default", {"n": nb, "budget": bud}))
+    for (cls, params) in cl:
+        classes_case(res, gd, cls, params, crng.randrange(2 ** 31))
+        if len(res.oracle_failures) >= 20:
+            break
     # fewer than three posterior samples: tie only
     for (n, mc) in [(2, 10), (0, 5), (1, 1)]:
         try:
@@ -696,6 +874,8 @@ def replay(ctx, case, res):
         exhaustive(res, fn, case["n"], case["k"], [], [], [])
     elif kind == "callsite":
         callsite_case(res, gd, case["n_thetas"], case["max_combos"], case["seed"], adversarial=case.get("adversarial", False))
+    elif kind == "class":
+        classes_case(res, gd, case["class"], case["params"], case["seed"])
     elif kind == "reuse":
         scorer_reuse_case(res, gd, case["ns"], case["max_triples"], case["max_chunk"], case["seed"])
     elif kind == "blackbox":
